@@ -8,7 +8,7 @@ with correct lines, arrive in source order; zero errors => non-nil root; the tre
 callback is installed."""
 import random
 
-from . import core, syntax, progs, lexgen, c01
+from . import core, syntax, progs, lexgen, c01, semerr
 
 CLOSERS = {b")", b"]", b"}"}
 CONT = {b"+", b"-", b"*", b"/", b".", b"=", b"(", b"[", b"{", b",", b"->", b"::", b"=>", b"&&", b"||", b"?", b"==", b"<", b">", b"%", b"&", b"|", b"^",
@@ -101,6 +101,34 @@ def run(tier):
         if r.get("nerr") == 0 and r.get("root") and r.get("print_eq") is False and c01.family(t["src"].encode("latin-1"), t["ver"]) != "empty-heredoc-flex":
             check.violation({"class": "silent-parse-incomplete", "family": t["ver"][0]},
                             {"src": t["src"], "ver": t["ver"], "printed": r.get("printed_ctx"), "source": r.get("src_ctx")})
+    # errors reported by grammar actions (PHP 5: by-reference foreach key, trait extends / implements): reported, with a
+    # position selecting the offending text; the same programs are syntax errors under PHP 7; callback independence
+    sem = semerr.programs()
+    vers5 = ["5.6", "5.0"] if tier == "quick" else ["5.6", "5.0", "5.3", "5.4", "5.5"]
+    tasks = []
+    for p in sem:
+        for ver in vers5 + ["7.4"]:
+            tasks.append({"op": "analyze", "src": p["src"], "ver": ver, "_p": p})
+            tasks.append({"op": "analyze", "src": p["src"], "ver": ver, "nocb": True, "_p": p})
+    res = wp.run([{k: v for k, v in t.items() if k != "_p"} for t in tasks])
+    for k in range(0, len(tasks), 2):
+        t, r, rn = tasks[k], res[k], res[k + 1]
+        check.count(2)
+        check.distinct((t["src"], t["ver"]))
+        if any(x.get("panic") or x.get("hang") or x.get("crash") for x in (r, rn)):
+            continue            # C01
+        bad = semerr.judge5(t["_p"], r.get("errs")) if t["ver"][0] == "5" else (None if r.get("nerr", 0) > 0 else "malformed-accepted-silently")
+        if bad:
+            check.violation({"class": bad, "family": t["ver"][0], "construct": "trait" if "trait" in t["src"] else "foreach"},
+                            {"src": t["src"], "ver": t["ver"], "errors": r.get("errs"), "expected": t["_p"]["expect5"]})
+        for f in r.get("fails") or []:
+            if f["c"].startswith("C06."):
+                check.violation({"class": f["c"], "family": t["ver"][0], "msg": (f.get("msg") or "")[:40]},
+                                {"src": t["src"], "ver": t["ver"], "fail": f, "errors": r.get("errs")})
+        if r.get("root") != rn.get("root") or r.get("fp") != rn.get("fp"):
+            check.violation({"class": "tree-depends-on-callback", "family": t["ver"][0]},
+                            {"src": t["src"], "ver": t["ver"], "with_callback": [r.get("root"), r.get("fp")], "without": [rn.get("root"), rn.get("fp")]})
+    check.cov["semantic_error_programs"] = len(sem)
     check.cov["traces_validated_against_impl"] = check.cov["evaluations"]
     check.assumptions += ["the three edit kinds leave the language for every bracket-balanced program of Syntax.tla (brackets inside string bodies excluded)",
                           "line rule LF/CRLF/CR for error positions"]
